@@ -1,1 +1,385 @@
-fn main() {}
+//! C13: the in-memory and the RocksDB persistence back-ends driven with the same histories.
+
+use std::collections::{BTreeMap, BTreeSet};
+use std::path::PathBuf;
+
+use bytes::BytesMut;
+use futures::executor::block_on;
+use swimos_api::error::StoreError;
+use swimos_api::persistence::{NodePersistence, PlanePersistence, RangeConsumer, ServerPersistence};
+use swimos_rocks_store::{default_db_opts, open_rocks_store};
+use swimos_server_app::verif_hooks::InMemoryPlanePersistence;
+use vcore::*;
+
+#[derive(Clone, Debug, PartialEq, Eq, PartialOrd, Ord)]
+enum Op {
+    GetValue(String, String),
+    PutValue(String, String, Vec<u8>),
+    DeleteValue(String, String),
+    UpdateMap(String, String, Vec<u8>, Vec<u8>),
+    RemoveMap(String, String, Vec<u8>),
+    ClearMap(String, String),
+    ReadMap(String, String),
+    Open(String),
+    Close(String),
+    Reopen,
+}
+
+fn cs(s: &str) -> String {
+    coq_bytes(s.as_bytes())
+}
+
+impl Op {
+    fn coq(&self) -> String {
+        match self {
+            Op::GetValue(a, n) => format!("GetValue {} {}", cs(a), cs(n)),
+            Op::PutValue(a, n, v) => format!("PutValue {} {} {}", cs(a), cs(n), coq_bytes(v)),
+            Op::DeleteValue(a, n) => format!("DeleteValue {} {}", cs(a), cs(n)),
+            Op::UpdateMap(a, n, k, v) => format!("UpdateMap {} {} {} {}", cs(a), cs(n), coq_bytes(k), coq_bytes(v)),
+            Op::RemoveMap(a, n, k) => format!("RemoveMap {} {} {}", cs(a), cs(n), coq_bytes(k)),
+            Op::ClearMap(a, n) => format!("ClearMap {} {}", cs(a), cs(n)),
+            Op::ReadMap(a, n) => format!("ReadMap {} {}", cs(a), cs(n)),
+            Op::Open(a) => format!("Open {}", cs(a)),
+            Op::Close(a) => format!("Close {}", cs(a)),
+            Op::Reopen => "Reopen".into(),
+        }
+    }
+    fn kind(&self) -> &'static str {
+        match self {
+            Op::GetValue(..) => "get_value",
+            Op::PutValue(..) => "put_value",
+            Op::DeleteValue(..) => "delete_value",
+            Op::UpdateMap(..) => "update_map",
+            Op::RemoveMap(..) => "remove_map",
+            Op::ClearMap(..) => "clear_map",
+            Op::ReadMap(..) => "read_map",
+            Op::Open(..) => "open",
+            Op::Close(..) => "close",
+            Op::Reopen => "reopen",
+        }
+    }
+    fn target(&self) -> Option<(&str, &str)> {
+        match self {
+            Op::GetValue(a, n)
+            | Op::PutValue(a, n, _)
+            | Op::DeleteValue(a, n)
+            | Op::UpdateMap(a, n, _, _)
+            | Op::RemoveMap(a, n, _)
+            | Op::ClearMap(a, n)
+            | Op::ReadMap(a, n) => Some((a, n)),
+            _ => None,
+        }
+    }
+}
+
+fn res_unit(r: Result<(), StoreError>) -> String {
+    match r {
+        Ok(()) => "RUnit".into(),
+        Err(StoreError::InvalidOperation) => "RInvalid".into(),
+        Err(e) => panic!("unexpected store error {:?}", e),
+    }
+}
+
+fn call<N: NodePersistence>(node: &mut N, op: &Op) -> String {
+    let (_, name) = op.target().unwrap();
+    let id = node.id_for(name).expect("id_for");
+    let r = match op {
+        Op::GetValue(..) => {
+            let mut buf = BytesMut::new();
+            match node.get_value(id, &mut buf) {
+                Ok(Some(n)) => {
+                    assert_eq!(n, buf.len());
+                    format!("RVal (Some {})", coq_bytes(&buf))
+                }
+                Ok(None) => "RVal None".into(),
+                Err(StoreError::InvalidOperation) => "RInvalid".into(),
+                Err(e) => panic!("unexpected store error {:?}", e),
+            }
+        }
+        Op::PutValue(_, _, v) => res_unit(node.put_value(id, v)),
+        Op::DeleteValue(..) => res_unit(node.delete_value(id)),
+        Op::UpdateMap(_, _, k, v) => res_unit(node.update_map(id, k, v)),
+        Op::RemoveMap(_, _, k) => res_unit(node.remove_map(id, k)),
+        Op::ClearMap(..) => res_unit(node.clear_map(id)),
+        Op::ReadMap(..) => match node.read_map(id) {
+            Ok(mut it) => {
+                let mut entries: Vec<(Vec<u8>, Vec<u8>)> = vec![];
+                while let Some((k, v)) = it.consume_next().expect("consume_next") {
+                    entries.push((k.to_vec(), v.to_vec()));
+                }
+                entries.sort();
+                format!(
+                    "REntries {}",
+                    coq_list(entries.iter().map(|(k, v)| format!("({}, {})", coq_bytes(k), coq_bytes(v))))
+                )
+            }
+            Err(StoreError::InvalidOperation) => "RInvalid".into(),
+            Err(e) => panic!("unexpected store error {:?}", e),
+        },
+        _ => unreachable!(),
+    };
+    format!("(Some {:?}%N, {})", id, r)
+}
+
+fn run_plane<P: PlanePersistence>(
+    make_plane: &mut dyn FnMut() -> P,
+    supports_reopen: bool,
+    ops: &[Op],
+) -> Vec<String> {
+    let mut plane = Some(make_plane());
+    let mut nodes: BTreeMap<String, P::Node> = BTreeMap::new();
+    let mut outs = vec![];
+    let skipped = "(None, RSkipped)".to_string();
+    for op in ops {
+        let o = match op {
+            Op::Open(a) => {
+                if nodes.contains_key(a) {
+                    skipped.clone()
+                } else {
+                    let n = block_on(plane.as_ref().unwrap().node_store(a)).expect("node_store");
+                    nodes.insert(a.clone(), n);
+                    "(None, RUnit)".into()
+                }
+            }
+            Op::Close(a) => {
+                if nodes.remove(a).is_some() {
+                    "(None, RUnit)".into()
+                } else {
+                    skipped.clone()
+                }
+            }
+            Op::Reopen => {
+                if supports_reopen {
+                    nodes.clear();
+                    plane = None; // closes the database
+                    plane = Some(make_plane());
+                    "(None, RUnit)".into()
+                } else {
+                    skipped.clone()
+                }
+            }
+            other => {
+                let (a, _) = other.target().unwrap();
+                match nodes.get_mut(a) {
+                    Some(n) => call(n, other),
+                    None => skipped.clone(),
+                }
+            }
+        };
+        outs.push(o);
+    }
+    outs
+}
+
+fn run_mem(ops: &[Op]) -> Vec<String> {
+    let plane = InMemoryPlanePersistence::default();
+    let mut mk = || plane.clone();
+    run_plane(&mut mk, false, ops)
+}
+
+fn open_plane_at<S: ServerPersistence>(s: S) -> S::PlaneStore {
+    s.open_plane("plane").expect("open_plane")
+}
+
+fn run_rocks(dir: &PathBuf, ops: &[Op]) -> Vec<String> {
+    let _ = std::fs::remove_dir_all(dir);
+    std::fs::create_dir_all(dir).unwrap();
+    let d = dir.clone();
+    fn go<P: PlanePersistence>(mk: &mut dyn FnMut() -> P, ops: &[Op]) -> Vec<String> {
+        run_plane(mk, true, ops)
+    }
+    let mut mk = move || open_plane_at(open_rocks_store(Some(d.clone()), default_db_opts()).expect("open_rocks_store"));
+    let outs = go(&mut mk, ops);
+    let _ = std::fs::remove_dir_all(dir);
+    outs
+}
+
+// ---- generators ----
+
+const AGENTS: &[&str] = &["/a", "/a/b", "/unit/1", "/é"];
+const ITEMS: &[&str] = &["x", "b/c", "c", "lane", ""];
+
+fn key(rng: &mut Rng) -> Vec<u8> {
+    // lengths around the key-prefix sizes, 0x00 / 0xff bytes, shared prefixes
+    let pool: &[&[u8]] = &[
+        b"", b"\x00", b"\xff", b"a", b"ab", b"abc", b"\x00\x00", b"\x01", b"\x02", b"aaaaaaa", b"aaaaaaaa", b"aaaaaaaaa",
+        b"0123456789abcdef", b"0123456789abcdefg", b"0123456789abcdefgh", b"\xff\xff\xff\xff\xff\xff\xff\xff\xff",
+    ];
+    if rng.chance(3, 4) {
+        rng.pick(pool).to_vec()
+    } else {
+        let n = *rng.pick(&[0usize, 1, 7, 8, 9, 16, 17, 18, 19]);
+        rng.bytes(n)
+    }
+}
+fn val(rng: &mut Rng) -> Vec<u8> {
+    let n = *rng.pick(&[0usize, 1, 2, 5, 20]);
+    rng.bytes(n)
+}
+
+fn gen(rng: &mut Rng, rocks: bool, len: usize, collide: bool, mix_kinds: bool) -> Vec<Op> {
+    // each (agent, item) has a fixed kind unless mix_kinds
+    let agents: Vec<&str> = if collide { vec!["/a", "/a/b"] } else { vec!["/a", "/unit/1", "/é"] };
+    let items: Vec<&str> = if collide { vec!["b/c", "c", "x"] } else { vec!["x", "c", "lane", ""] };
+    let mut ops = vec![];
+    let mut open: BTreeSet<String> = BTreeSet::new();
+    let collide_kind = rng.chance(1, 2);
+    while ops.len() < len {
+        let a = rng.pick(&agents).to_string();
+        let r = rng.below(100);
+        if !open.contains(&a) || r < 4 {
+            if open.contains(&a) {
+                open.remove(&a);
+                ops.push(Op::Close(a));
+            } else {
+                open.insert(a.clone());
+                ops.push(Op::Open(a));
+            }
+            continue;
+        }
+        if rocks && r < 8 {
+            open.clear();
+            ops.push(Op::Reopen);
+            continue;
+        }
+        let idx = rng.usize_below(items.len());
+        let n = items[idx].to_string();
+        // kind by (agent, item) index parity unless mixing
+        let is_map = if mix_kinds { rng.chance(1, 2) } else if collide { collide_kind } else { (idx + a.len()) % 2 == 0 };
+        let op = if is_map {
+            match rng.below(10) {
+                0..=4 => Op::UpdateMap(a, n, key(rng), val(rng)),
+                5 | 6 => Op::RemoveMap(a, n, key(rng)),
+                7 => Op::ClearMap(a, n),
+                _ => Op::ReadMap(a, n),
+            }
+        } else {
+            match rng.below(10) {
+                0..=4 => Op::PutValue(a, n, val(rng)),
+                5 => Op::DeleteValue(a, n),
+                _ => Op::GetValue(a, n),
+            }
+        };
+        ops.push(op);
+    }
+    // read everything back at the end (after a reopen for RocksDB)
+    if rocks {
+        ops.push(Op::Reopen);
+    }
+    for a in &agents {
+        if rocks || !open.contains(*a) {
+            ops.push(Op::Open(a.to_string()));
+        }
+        for (idx, n) in items.iter().enumerate() {
+            let is_map = if collide { collide_kind } else { (idx + a.len()) % 2 == 0 };
+            if mix_kinds || is_map {
+                ops.push(Op::ReadMap(a.to_string(), n.to_string()));
+            }
+            if mix_kinds || !is_map {
+                ops.push(Op::GetValue(a.to_string(), n.to_string()));
+            }
+        }
+    }
+    ops
+}
+
+fn main() {
+    let args = parse_args();
+    let mut rng = Rng::new(args.seed);
+    let mut w = CaseWriter::new(
+        "From SwimV Require Import Lib.Hex Model.Stores.\nOpen Scope N_scope.",
+        "scase",
+        &["corr_bad", "oracle_bad", "known_hits"],
+        args.shards.min(200),
+    );
+    let scratch = std::env::temp_dir().join(format!("verif_c13_{}", std::process::id()));
+    let mut kinds: BTreeMap<String, u64> = BTreeMap::new();
+    let mut backends: BTreeMap<String, u64> = BTreeMap::new();
+    let mut distinct = BTreeSet::new();
+    let mut nontrivial = 0u64;
+    let mut samples = vec![];
+
+    let mut emit = |rocks: bool, ops: &[Op], w: &mut CaseWriter| {
+        let outs = if rocks { run_rocks(&scratch, ops) } else { run_mem(ops) };
+        let term = format!(
+            "({}, {}, {})",
+            rocks,
+            coq_list(ops.iter().map(|o| o.coq())),
+            coq_list(outs.iter().cloned())
+        );
+        let human = format!("rocks={} ops={:?} impl={:?}", rocks, ops, outs);
+        for o in ops {
+            *kinds.entry(o.kind().into()).or_default() += 1;
+        }
+        *backends.entry(if rocks { "rocks" } else { "in_memory" }.into()).or_default() += 1;
+        // non-trivial: a read_map returning >= 2 entries after a close/reopen
+        let mut reopened = false;
+        let mut nt = false;
+        for (o, r) in ops.iter().zip(outs.iter()) {
+            match o {
+                Op::Close(_) | Op::Reopen => reopened = true,
+                Op::ReadMap(..) if reopened && r.matches("(hex").count() >= 4 => nt = true,
+                _ => {}
+            }
+        }
+        if distinct.insert((rocks, ops.to_vec())) && nt {
+            nontrivial += 1;
+            if samples.len() < 3 {
+                samples.push(J::s(human.chars().take(700).collect::<String>()));
+            }
+        }
+        w.push(term, human);
+    };
+
+    // corpus
+    let a = |s: &str| s.to_string();
+    emit(
+        true,
+        &[
+            Op::Open(a("/a")), Op::Open(a("/a/b")),
+            Op::PutValue(a("/a"), a("b/c"), vec![1]), Op::PutValue(a("/a/b"), a("c"), vec![2]),
+            Op::GetValue(a("/a"), a("b/c")), Op::GetValue(a("/a/b"), a("c")),
+        ],
+        &mut w,
+    );
+    emit(
+        true,
+        &[
+            Op::Open(a("/a")),
+            Op::UpdateMap(a("/a"), a("m"), vec![], vec![1]), Op::UpdateMap(a("/a"), a("m"), vec![0], vec![2]),
+            Op::UpdateMap(a("/a"), a("n"), vec![0xff; 9], vec![3]), Op::UpdateMap(a("/a"), a("m"), b"0123456789abcdefgh".to_vec(), vec![4]),
+            Op::ReadMap(a("/a"), a("m")), Op::ClearMap(a("/a"), a("m")), Op::ReadMap(a("/a"), a("m")), Op::ReadMap(a("/a"), a("n")),
+            Op::Reopen, Op::Open(a("/a")), Op::ReadMap(a("/a"), a("n")), Op::UpdateMap(a("/a"), a("o"), vec![1], vec![1]), Op::ReadMap(a("/a"), a("o")),
+        ],
+        &mut w,
+    );
+    emit(
+        false,
+        &[
+            Op::Open(a("/a")), Op::PutValue(a("/a"), a("x"), vec![1]), Op::UpdateMap(a("/a"), a("x"), vec![1], vec![1]),
+            Op::Close(a("/a")), Op::Open(a("/a")), Op::GetValue(a("/a"), a("x")), Op::DeleteValue(a("/a"), a("x")),
+            Op::UpdateMap(a("/a"), a("x"), vec![1], vec![1]), Op::GetValue(a("/a"), a("x")), Op::ReadMap(a("/a"), a("x")),
+        ],
+        &mut w,
+    );
+
+    let _ = (AGENTS, ITEMS);
+    for i in 0..args.cases {
+        let rocks = i % 2 == 0;
+        let len = rng.range(5, 60) as usize;
+        let collide = rocks && rng.chance(1, 8);
+        let mix = !rocks && rng.chance(1, 5);
+        let ops = gen(&mut rng, rocks, len, collide, mix);
+        emit(rocks, &ops, &mut w);
+    }
+    w.finish(&args.out, "cases").unwrap();
+    let meta = J::obj(vec![
+        ("evaluations", J::I(w.len() as i128)),
+        ("distinct_nontrivial", J::I(nontrivial as i128)),
+        ("rule", J::s("histories of open / close / reopen (RocksDB: close the database and open the plane again) and id_for+get/put/delete/update/remove/clear/read_map over 3 agents x 4 items, each (agent, item) of a fixed kind (a fifth of the in-memory histories mix kinds to exercise InvalidOperation; an eighth of the RocksDB histories use agent/item names whose '<agent>/<item>' concatenations collide); keys from a pool of adversarial byte strings (empty, 0x00, 0xff, shared prefixes, lengths 7..9 and 16..19 around the key prefix sizes) or random; every history ends by reading everything back (after a reopen for RocksDB); alternating back-ends; non-trivial = a read_map with >= 2 entries after a close / reopen; distinct by history")),
+        ("op_kinds", J::counts(&kinds)),
+        ("backends", J::counts(&backends)),
+        ("samples", J::A(samples)),
+    ]);
+    write_meta(&args.out, "meta.json", &meta);
+}
